@@ -13,6 +13,7 @@ import (
 	"fmt"
 	"io/ioutil"
 	"runtime"
+	"sort"
 	"strings"
 	"sync"
 	"testing"
@@ -45,7 +46,13 @@ const (
 	c18NotFound  = "404"
 	c18ServerErr = "5xx"
 	c18Hang      = "hang"
+	// a status other than 200/404/5xx; the answer may nevertheless carry a
+	// collection record (honest, tampered or different)
+	c18Status = "status"
 )
+
+// statuses a remote may use besides 200, 404 and 5xx
+var c18oddStatuses = []int{201, 202, 203, 206, 299, 301, 400, 401, 403, 410, 422, 404, 500}
 
 type c18answer struct {
 	kind   string
@@ -54,15 +61,47 @@ type c18answer struct {
 	text   string // manifest text sent (200 answers)
 	err    error  // error answers
 	valid  bool   // 200 answer whose reference PDH equals the requested hash+size
+
+	code      int    // kind == c18Status: the status
+	carries   string // kind == c18Status: what the record carried with it is (honest, tamper-<k>, different, nothing)
+	textValid bool   // the answer carries a manifest whose reference PDH equals the requested hash+size
 }
 
 func (a c18answer) is200() bool { return a.err == nil && a.kind != c18Hang }
 
+// hasText: the answer hands a manifest to the code under test (with status
+// 200, or next to an error status).
+func (a c18answer) hasText() bool {
+	return a.kind != c18Hang && (a.err == nil || (a.kind == c18Status && a.carries != "nothing"))
+}
+
 func (a c18answer) label() string {
-	if a.kind == c18Tamper {
+	switch a.kind {
+	case c18Tamper:
 		return "tamper-" + a.tamper
+	case c18Status:
+		return fmt.Sprintf("status-%d", a.code)
 	}
 	return a.kind
+}
+
+func (a c18answer) statusClass() string {
+	c := "4xx(not-404)"
+	switch {
+	case a.code == 404 || a.code >= 500:
+		c = "404/5xx"
+	case a.code < 300:
+		c = "2xx(not-200)"
+	case a.code < 400:
+		c = "3xx"
+	}
+	if a.carries == "nothing" {
+		return "status-" + c + "/no-record"
+	}
+	if a.textValid {
+		return "status-" + c + "/carrying-valid-manifest"
+	}
+	return "status-" + c + "/carrying-invalid-manifest"
 }
 
 type c18stub struct {
@@ -114,6 +153,10 @@ func (s *c18stub) CollectionGet(ctx context.Context, opts arvados.GetOptions) (a
 	case <-s.abort:
 		return arvados.Collection{}, errors.New("VERIF-INFRA: stub aborted by harness")
 	}
+	if s.ans.err != nil && s.ans.hasText() {
+		// an error status whose body nevertheless is a collection record
+		return arvados.Collection{PortableDataHash: ref.PDH(s.ans.text), ManifestText: s.ans.text}, s.ans.err
+	}
 	if s.ans.err != nil {
 		return arvados.Collection{}, s.ans.err
 	}
@@ -135,20 +178,30 @@ func c18ctx() context.Context {
 	return ctxlog.Context(context.Background(), logger)
 }
 
-func c18genManifest(t *rapid.T) (*mgen.Manifest, []string) {
+// c18bigShare: one case in c18bigShare carries 1-3 stream lines of 50-280 KiB
+// (fedgen.Inflate).
+const c18bigShare = 12
+
+func c18genManifest(t *rapid.T) (*mgen.Manifest, []string, fedgen.BigInfo) {
 	m := mgen.Gen(t, mgen.GenOpts{Signed: true, MaxStreams: 3, MaxBlocks: 4, MaxFiles: 4})
 	labels := fedgen.Decorate(t, m, true)
-	if rapid.IntRange(0, 9).Draw(t, "signAll") < 3 {
+	signAll := rapid.IntRange(0, 9).Draw(t, "signAll") < 3
+	if signAll {
 		fedgen.SignAll(t, m)
 		labels = append(labels, "all-locators-signed")
 	}
-	return m, labels
+	var big fedgen.BigInfo
+	if rapid.IntRange(0, 2*c18bigShare-1).Draw(t, "big")%c18bigShare == c18bigShare/2 {
+		big = fedgen.Inflate(t, m, signAll)
+		labels = append(labels, big.Labels()...)
+	}
+	return m, labels, big
 }
 
 // c18drawAnswer draws one backend's behaviour. honestText is the collection
 // really stored under the true PDH; reqBase is hash+size of the requested id.
 func c18drawAnswer(t *rapid.T, label string, honestText, otherText, reqBase string, allowHang bool, weightHonest int) c18answer {
-	kinds := []string{c18Tamper, c18Tamper, c18Tamper, c18Different, c18NotFound, c18NotFound, c18ServerErr}
+	kinds := []string{c18Tamper, c18Tamper, c18Tamper, c18Different, c18NotFound, c18NotFound, c18ServerErr, c18Status, c18Status, c18Status}
 	for i := 0; i < weightHonest; i++ {
 		kinds = append(kinds, c18Honest)
 	}
@@ -170,6 +223,24 @@ func c18drawAnswer(t *rapid.T, label string, honestText, otherText, reqBase stri
 		a.text = otherText
 	case c18NotFound:
 		a.err = c18httpErr{404, "not found"}
+	case c18Status:
+		a.code = rapid.SampledFrom(c18oddStatuses).Draw(t, label+"Status")
+		a.err = c18httpErr{a.code, "odd status"}
+		a.carries = rapid.SampledFrom([]string{"honest", "honest", "tamper", "tamper", "different", "nothing"}).Draw(t, label+"Carries")
+		switch a.carries {
+		case "honest":
+			a.text = honestText
+		case "tamper":
+			a.tamper = rapid.SampledFrom(fedgen.TamperKinds).Draw(t, label+"Tamper")
+			a.text, a.detail = fedgen.Tamper(t, honestText, a.tamper)
+			if a.detail == "" {
+				a.carries, a.tamper, a.text = "different", "", otherText
+			} else {
+				a.carries = "tamper-" + a.tamper
+			}
+		case "different":
+			a.text = otherText
+		}
 	case c18ServerErr:
 		switch rapid.IntRange(0, 3).Draw(t, label+"Err") {
 		case 0:
@@ -182,8 +253,9 @@ func c18drawAnswer(t *rapid.T, label string, honestText, otherText, reqBase stri
 			a.err = errors.New("connection refused (no status)")
 		}
 	}
-	if a.is200() {
-		a.valid = ref.PDH(a.text) == reqBase
+	if a.hasText() {
+		a.textValid = ref.PDH(a.text) == reqBase
+		a.valid = a.textValid && a.is200()
 	}
 	return a
 }
@@ -198,7 +270,7 @@ func c18status(err error) int {
 func TestVerifC18CollectionGetByPDH(t *testing.T) {
 	defer stats.Flush()
 	rapid.Check(t, func(t *rapid.T) {
-		m, decoLabels := c18genManifest(t)
+		m, decoLabels, big := c18genManifest(t)
 		honest := m.Text()
 		other := mgen.Gen(t, mgen.GenOpts{Signed: true, MaxStreams: 2, MaxBlocks: 3, MaxFiles: 3}).Text()
 		truePDH := ref.PDH(honest)
@@ -376,10 +448,13 @@ func TestVerifC18CollectionGetByPDH(t *testing.T) {
 		describe := func() string {
 			var sb strings.Builder
 			fmt.Fprintf(&sb, "request %q (%s; true PDH %s) forwardedFor=%q mode=%s settle=%v\n", req, reqKind, truePDH, forwardedFor, mode, settle)
-			fmt.Fprintf(&sb, "honest text: %q\n", honest)
-			fmt.Fprintf(&sb, "local %s: %s valid=%v text=%q err=%v\n", ids[0], localAns.label(), localAns.valid, localAns.text, localAns.err)
+			if big.Streams > 0 {
+				fmt.Fprintf(&sb, "%s\n", big)
+			}
+			fmt.Fprintf(&sb, "honest text: %q\n", fedgen.Abbrev(honest))
+			fmt.Fprintf(&sb, "local %s: %s carries=%q valid=%v text=%q err=%v\n", ids[0], localAns.label(), localAns.carries, localAns.valid, fedgen.Abbrev(localAns.text), localAns.err)
 			for _, st := range stubs {
-				fmt.Fprintf(&sb, "remote %s: %s (%s) valid=%v text=%q err=%v\n", st.id, st.ans.label(), st.ans.detail, st.ans.valid, st.ans.text, st.ans.err)
+				fmt.Fprintf(&sb, "remote %s: %s (%s) carries=%q valid=%v text=%q err=%v\n", st.id, st.ans.label(), st.ans.detail, st.ans.carries, st.ans.valid, fedgen.Abbrev(st.ans.text), st.ans.err)
 			}
 			fmt.Fprintf(&sb, "release order: %v\n", releasedOrder)
 			return sb.String()
@@ -393,7 +468,7 @@ func TestVerifC18CollectionGetByPDH(t *testing.T) {
 			// Who produced it? The local cluster's own answer is not "fetched
 			// from a remote cluster": the property only wants it unchanged.
 			var diffs []string
-			if localAns.is200() {
+			if localAns.hasText() {
 				if got == localAns.text {
 					winner = "local"
 				} else {
@@ -402,12 +477,16 @@ func TestVerifC18CollectionGetByPDH(t *testing.T) {
 			}
 			// (a) what is handed out from a remote hashes to the requested value
 			if p := ref.PDH(got); p != reqBase && winner != "local" {
-				t.Fatalf("C18 violated: CollectionGet(%q) succeeded but the returned manifest has reference PDH %s\nreturned: %q\n%s", req, p, got, describe())
+				t.Fatalf("C18 violated: CollectionGet(%q) succeeded but the returned manifest has reference PDH %s\nreturned: %q\n%s", req, p, fedgen.Abbrev(got), describe())
 			}
 			// (b) it is what one backend sent, with only +A -> +R<id>-
+			// (a 200 answer is looked at before an odd-status answer carrying
+			// the same text: without +A hints their rewrites are equal)
+			byStatus := append([]*c18stub(nil), stubs...)
+			sort.SliceStable(byStatus, func(i, j int) bool { return byStatus[i].ans.is200() && !byStatus[j].ans.is200() })
 			if winner == "" {
-				for _, st := range stubs {
-					if !st.ans.is200() {
+				for _, st := range byStatus {
+					if !st.ans.hasText() {
 						continue
 					}
 					st.mu.Lock()
@@ -419,17 +498,23 @@ func TestVerifC18CollectionGetByPDH(t *testing.T) {
 					want := fedgen.RefRewrite(st.ans.text, st.id)
 					if got == want {
 						winner = st.id
-						if !st.ans.valid {
+						if !st.ans.textValid {
 							t.Fatalf("C18 violated: the answer of remote %s (%s, %s) was relayed although it does not hash to the request\n%s", st.id, st.ans.label(), st.ans.detail, describe())
 						}
-						labels = append(labels, "winner:remote-"+st.ans.label())
+						if st.ans.kind == c18Status {
+							// not an honest answer, but what is handed out is
+							// verified and correctly rewritten: outcome adopted
+							labels = append(labels, "winner:remote-"+st.ans.statusClass())
+						} else {
+							labels = append(labels, "winner:remote-"+st.ans.label())
+						}
 						break
 					}
 					diffs = append(diffs, "vs remote "+st.id+": "+fedgen.DiffTokens(got, want))
 				}
 			}
 			if winner == "" {
-				t.Fatalf("C18 violated: returned manifest is not what any backend sent with only +A<sig>@<exp> -> +R<id>-<sig>@<exp>\nreturned: %q\n%s\n%s", got, strings.Join(diffs, "\n"), describe())
+				t.Fatalf("C18 violated: returned manifest is not what any backend sent with only +A<sig>@<exp> -> +R<id>-<sig>@<exp>\nreturned: %q\n%s\n%s", fedgen.Abbrev(got), strings.Join(diffs, "\n"), describe())
 			}
 			if winner == "local" {
 				labels = append(labels, "winner:local")
@@ -470,10 +555,17 @@ func TestVerifC18CollectionGetByPDH(t *testing.T) {
 		invalid200 := 0
 		seenKinds := map[string]bool{}
 		for _, st := range stubs {
-			if st.ans.is200() && !st.ans.valid {
+			if st.ans.hasText() && !st.ans.textValid {
 				invalid200++
 			}
 			l := "remote:" + st.ans.label()
+			if st.ans.kind == c18Status {
+				l = "remote:" + st.ans.statusClass()
+				if k := fmt.Sprintf("remote-status:%d", st.ans.code); !seenKinds[k] {
+					seenKinds[k] = true
+					labels = append(labels, k)
+				}
+			}
 			if st.ans.is200() {
 				if st.ans.valid {
 					l += "/valid"
@@ -510,13 +602,13 @@ func TestVerifC18CollectionGetByPDH(t *testing.T) {
 				labels = append(labels, "no-valid-remote")
 			}
 		}
-		if localAns.is200() && !localAns.valid {
+		if localAns.hasText() && !localAns.textValid {
 			invalid200++
 		}
 		nontrivial := invalid200 > 0 || (res.err == nil && winner != "local" && fedgen.CountSigned(honest) > 0)
 		var kinds []string
 		for _, st := range stubs {
-			kinds = append(kinds, st.id+st.ans.label()+st.ans.detail)
+			kinds = append(kinds, st.id+st.ans.label()+st.ans.carries+st.ans.detail)
 		}
 		for i := range labels {
 			labels[i] = "fed:" + labels[i]
@@ -527,9 +619,9 @@ func TestVerifC18CollectionGetByPDH(t *testing.T) {
 				if have == l && stats.WantSample(l) {
 					var rs []string
 					for _, st := range stubs {
-						rs = append(rs, st.id+":"+st.ans.label()+":"+st.ans.detail)
+						rs = append(rs, st.id+":"+st.ans.label()+":"+st.ans.carries+":"+st.ans.detail)
 					}
-					stats.Sample(l, map[string]interface{}{"req": req, "reqKind": reqKind, "honest": honest, "local": localAns.label(), "remotes": rs, "order": releasedOrder, "mode": mode, "winner": winner, "returned": res.coll.ManifestText, "err": fmt.Sprint(res.err)})
+					stats.Sample(l, map[string]interface{}{"req": req, "reqKind": reqKind, "honest": fedgen.Abbrev(honest), "local": localAns.label(), "remotes": rs, "order": releasedOrder, "mode": mode, "winner": winner, "returned": fedgen.Abbrev(res.coll.ManifestText), "err": fmt.Sprint(res.err)})
 				}
 			}
 		}
@@ -541,7 +633,7 @@ func TestVerifC18CollectionGetByPDH(t *testing.T) {
 func TestVerifC18RewriteOnly(t *testing.T) {
 	defer stats.Flush()
 	rapid.Check(t, func(t *rapid.T) {
-		m, decoLabels := c18genManifest(t)
+		m, decoLabels, big := c18genManifest(t)
 		text := m.Text()
 		// some texts are tampered/ungrammatical on purpose: the relation is
 		// about every locator token, whatever surrounds it
@@ -561,7 +653,7 @@ func TestVerifC18RewriteOnly(t *testing.T) {
 		// 1. the function
 		want := fedgen.RefRewrite(text, remoteID)
 		if got := rewriteManifest(text, remoteID); got != want {
-			t.Fatalf("C18 violated: rewriteManifest changed something other than +A -> +R%s-: %s\nin:   %q\ngot:  %q\nwant: %q", remoteID, fedgen.DiffTokens(got, want), text, got, want)
+			t.Fatalf("C18 violated: rewriteManifest changed something other than +A -> +R%s-: %s\n%s\nin:   %q\ngot:  %q\nwant: %q", remoteID, fedgen.DiffTokens(got, want), big, fedgen.Abbrev(text), fedgen.Abbrev(got), fedgen.Abbrev(want))
 		}
 		// 2. CollectionGet by UUID
 		abort := make(chan struct{})
@@ -595,17 +687,17 @@ func TestVerifC18RewriteOnly(t *testing.T) {
 				t.Fatalf("C18: by-UUID fetch of %q: calls local=%d remote=%d, want 0/1", uuid, nl, nr)
 			}
 			if c.ManifestText != wantText {
-				t.Fatalf("C18 violated: by-UUID fetch from remote %s relayed a text that differs from what was sent in more than +A -> +R%s-: %s\nsent: %q\ngot:  %q\nwant: %q", remoteID, remoteID, fedgen.DiffTokens(c.ManifestText, wantText), text, c.ManifestText, wantText)
+				t.Fatalf("C18 violated: by-UUID fetch from remote %s relayed a text that differs from what was sent in more than +A -> +R%s-: %s\nsent: %q\ngot:  %q\nwant: %q", remoteID, remoteID, fedgen.DiffTokens(c.ManifestText, wantText), fedgen.Abbrev(text), fedgen.Abbrev(c.ManifestText), fedgen.Abbrev(wantText))
 			}
 		case "local":
 			if c.ManifestText != wantText {
-				t.Fatalf("C18 violated: by-UUID fetch from the local cluster changed the manifest: %s\nsent: %q\ngot:  %q", fedgen.DiffTokens(c.ManifestText, wantText), text, c.ManifestText)
+				t.Fatalf("C18 violated: by-UUID fetch from the local cluster changed the manifest: %s\nsent: %q\ngot:  %q", fedgen.DiffTokens(c.ManifestText, wantText), fedgen.Abbrev(text), fedgen.Abbrev(c.ManifestText))
 			}
 		default:
 			// unknown prefix: the property does not say who is asked; whatever
 			// is returned must be the sent text or its rewrite for that prefix
 			if c.ManifestText != text && c.ManifestText != fedgen.RefRewrite(text, unknownID) {
-				t.Fatalf("C18 violated: by-UUID fetch with unknown prefix %q altered the manifest\nsent: %q\ngot:  %q", unknownID, text, c.ManifestText)
+				t.Fatalf("C18 violated: by-UUID fetch with unknown prefix %q altered the manifest\nsent: %q\ngot:  %q", unknownID, fedgen.Abbrev(text), fedgen.Abbrev(c.ManifestText))
 			}
 		}
 		labels = append(labels, "uuid-home:"+which)
@@ -623,7 +715,7 @@ func TestVerifC18RewriteOnly(t *testing.T) {
 		}
 		stats.Case(stats.FP("rw", text, remoteID, which), ns > 0, labels...)
 		if stats.WantSample("rewrite") {
-			stats.Sample("rewrite", map[string]string{"in": text, "remote": remoteID, "out": want})
+			stats.Sample("rewrite", map[string]string{"in": fedgen.Abbrev(text), "remote": remoteID, "out": fedgen.Abbrev(want)})
 		}
 	})
 }
